@@ -703,8 +703,10 @@ impl IndexManager {
             return None;
         }
 
-        let bucket = u8::from_str_radix(&filename[0..2], 16).ok()?;
-        let version = u32::from_str_radix(&filename[2..10], 16).ok()?;
+        // `get`, not indexing: 14 *bytes* need not be 14 characters, and slicing
+        // inside a multi-byte character panics
+        let bucket = u8::from_str_radix(filename.get(0..2)?, 16).ok()?;
+        let version = u32::from_str_radix(filename.get(2..10)?, 16).ok()?;
 
         Some((bucket, version))
     }
